@@ -365,3 +365,67 @@ Theorem C10_no_truncation_string : forall kind names feature n_bins n kept_ labe
   table_of (MFStr kind names feature) n_bins ys zs ws = TOk (str_table kind names label bins ys zs ws).
 Proof. exact marg_no_truncation_string. Qed.
 Print Assumptions C10_no_truncation_string.
+
+
+(* ====================================================================================== *)
+(* TEXT TO APPEND TO props/C10.v                                                           *)
+(* header: C10 (extra) "invariant under a permutation of the rows", now from the raw columns: *)
+(*   C10_perm_full_numeric (ALL inputs; edges of the triple up to xeq), C10_perm_full_numeric_canon,*)
+(*   C10_perm_full_string (under names_ok), C10_perm_table, C10_perm_full (predict_function None); *)
+(*   C10_dup_names_order_dependent: without names_ok the MODEL is order dependent (artifact:  *)
+(*   a real column has distinct category names).  NOT covered: the partial-dependence column. *)
+(* ====================================================================================== *)
+From Coq Require Import QArith List Permutation String.
+Import ListNotations.
+From MD Require Import lib.QLists model.Functionals model.Binning model.PartialDep model.Bias model.Marginal
+  proofs.BinningProps proofs.BiasProps proofs.MarginalProps proofs.BinningPerm proofs.BiasPerm.
+
+Theorem C10_perm_full_numeric : forall feature m interior n_bins p ys zs ws N,
+  List.length feature = N -> List.length ys = N -> List.length zs = N -> List.length ws = N ->
+  Permutation p (seq 0 N) ->
+  tres_rel xeq2 (table_of (MFNum feature m interior) n_bins ys zs ws)
+                (table_of (MFNum (permute None p feature) m interior) n_bins
+                          (permute 0%Q p ys) (permute 0%Q p zs) (permute 0%Q p ws)).
+Proof. exact table_of_perm_numeric. Qed.
+Print Assumptions C10_perm_full_numeric.
+
+Theorem C10_perm_full_numeric_canon : forall feature m interior n_bins p ys zs ws N,
+  Forall qcanon feature ->
+  List.length feature = N -> List.length ys = N -> List.length zs = N -> List.length ws = N ->
+  Permutation p (seq 0 N) ->
+  table_of (MFNum (permute None p feature) m interior) n_bins (permute 0%Q p ys) (permute 0%Q p zs) (permute 0%Q p ws)
+  = table_of (MFNum feature m interior) n_bins ys zs ws.
+Proof. exact table_of_perm_numeric_canon. Qed.
+Print Assumptions C10_perm_full_numeric_canon.
+
+Theorem C10_perm_full_string : forall kind names feature n_bins p ys zs ws N,
+  names_ok names feature ->
+  List.length feature = N -> List.length ys = N -> List.length zs = N -> List.length ws = N ->
+  Permutation p (seq 0 N) ->
+  table_of (MFStr kind names (permute None p feature)) n_bins (permute 0%Q p ys) (permute 0%Q p zs) (permute 0%Q p ws)
+  = table_of (MFStr kind names feature) n_bins ys zs ws.
+Proof. exact table_of_perm_string. Qed.
+Print Assumptions C10_perm_full_string.
+
+Theorem C10_perm_table : forall ft n_bins p ys zs ws N,
+  mfeat_ok N ft -> List.length ys = N -> List.length zs = N -> List.length ws = N -> Permutation p (seq 0 N) ->
+  table_of (permute_mfeat p ft) n_bins (permute 0%Q p ys) (permute 0%Q p zs) (permute 0%Q p ws)
+  = table_of ft n_bins ys zs ws.
+Proof. exact table_of_perm. Qed.
+Print Assumptions C10_perm_table.
+
+Theorem C10_perm_full : forall f rule ys models ft n_bins weights p,
+  mfeat_ok (List.length ys) ft -> cols_ok (List.length ys) models weights ->
+  Permutation p (seq 0 (List.length ys)) ->
+  compute_marginal f rule (permute 0%Q p ys) (map (permute 0%Q p) models) (permute_mfeat p ft) n_bins
+                   (option_map (permute 0%Q p) weights) None
+  = compute_marginal f rule ys models ft n_bins weights None.
+Proof. exact compute_marginal_perm_full. Qed.
+Print Assumptions C10_perm_full.
+
+Theorem C10_dup_names_order_dependent :
+  table_of (MFStr SString ["a"; "a"]%string [Some 0; Some 1]%nat) 3 [0; 1]%Q [0; 1]%Q [1; 1]%Q
+  <> table_of (MFStr SString ["a"; "a"]%string [Some 1; Some 0]%nat) 3 [1; 0]%Q [1; 0]%Q [1; 1]%Q.
+Proof. exact str_table_dup_names_order_dependent. Qed.
+Print Assumptions C10_dup_names_order_dependent.
+
